@@ -172,6 +172,14 @@ pub fn check(case: &Case, res: &RunResult, status: &str) -> Vec<(String, String)
   let mut futs: BTreeMap<String, usize> = BTreeMap::new(); // live future name -> ops index
   let mut inflight: BTreeSet<usize> = BTreeSet::new(); // tids with a direct op in flight
   let mut foreign_event: BTreeMap<usize, bool> = BTreeMap::new(); // tid -> another thread acted during its op
+  // shared handles: event index of the first `close h` INVOKED per handle (its flag may be set from then on, before
+  // the close returns: operations of other threads on that handle then answer as on a closed handle)
+  let mut close_called: BTreeMap<String, usize> = BTreeMap::new();
+  // sender handles: event at which the handle exists (0 / return of its `clone`) and the first event at which an
+  // operation that ends its life was INVOKED (`close`, `drop`, oneshot `send`)
+  let mut s_born: BTreeMap<String, usize> = BTreeMap::new();
+  let mut s_gone: BTreeMap<String, usize> = BTreeMap::new();
+  s_born.insert("s0".into(), 0);
 
   let gone = |hs: &BTreeMap<String, HState>, side: char| {
     // a closed handle that was converted afterwards is in an unknown state (known defect family:
@@ -188,6 +196,12 @@ pub fn check(case: &Case, res: &RunResult, status: &str) -> Vec<(String, String)
           }
         }
         raw_pending.insert(*tid, (i, op.clone()));
+        if op.name() == "close" {
+          close_called.entry(op.arg(1).to_string()).or_insert(i);
+        }
+        if matches!(op.name(), "close" | "drop") || (oneshot && op.name() == "send") {
+          s_gone.entry(op.arg(1).to_string()).or_insert(i);
+        }
         let form = op.form().to_string();
         let direct = op.name() != "fut" && (is_send(&form) || is_recv(&form));
         if direct || op.name() == "fut" {
@@ -296,6 +310,9 @@ pub fn check(case: &Case, res: &RunResult, status: &str) -> Vec<(String, String)
               taint = "-after-clone-of-closed-handle";
             }
             hs.insert(op.arg(2).to_string(), HState { side, is_async, ..Default::default() });
+            if side == 's' {
+              s_born.insert(op.arg(2).to_string(), i);
+            }
           }
           "to_async" | "to_sync" if ok => {
             if let Some(h) = hs.get_mut(op.arg(1)) {
@@ -616,9 +633,20 @@ pub fn check(case: &Case, res: &RunResult, status: &str) -> Vec<(String, String)
           }
         }
         if r.starts_with("err:disconnected") {
+          // nothing disconnects while a handle of the other side is alive: a sender handle that existed before this
+          // receive was invoked and on which no close / drop (oneshot: send) had even been invoked when it returned
+          if tn(o).is_empty() && close_called.get(&o.handle).map_or(true, |c| *c > at) {
+            if let Some((sh, _)) = s_born.iter().find(|(h, b)| **b <= o.call && s_gone.get(*h).map_or(true, |g| *g > at)) {
+              fire(
+                format!("{}:{}:disconnected-while-sender-alive", o.sfl, o.form),
+                format!("{} returned Disconnected on {} although sender handle {} was alive and open during the whole call (event {})", o.form, o.handle, sh, at),
+              );
+            }
+          }
           disc_seen.entry(o.handle.clone()).or_insert(at);
           // drain-then-Disconnected: every send that completed before this op was invoked must be received
-          if !spmc && !rdv {
+          // (not judged when a close of this very handle had been invoked by then: the answer of a closed handle)
+          if !spmc && !rdv && close_called.get(&o.handle).map_or(true, |c| *c > at) {
             for (v, (ri, sk)) in &sent_ok {
               // still buffered when Disconnected was returned: sent before, and received (if ever) only by an
               // operation invoked afterwards
